@@ -80,8 +80,10 @@ class StarCraftAudioFilesMetadataIo:
         with wave.open(path_to_wav_file_on_disk, "rb") as wav_file:
             frames = wav_file.getnframes()
             rate = wav_file.getframerate()
-            duration = frames / float(rate)
-            duration_milliseconds = duration * 1000
+            # whole milliseconds, in integer arithmetic: frames / float(rate) * 1000 falls
+            # just short of an exact value for some frame counts (8008 frames at 8000 Hz
+            # gave 1000 instead of 1001)
+            duration_milliseconds = frames * 1000 // rate
         return int(duration_milliseconds)
 
     @classmethod
